@@ -2,9 +2,10 @@
 
 use crate::common::Scenario;
 use crate::e1;
+use crate::e3;
 
 pub fn all() -> Vec<&'static dyn Scenario> {
-    vec![&e1::C01, &e1::C03, &e1::C12, &e1::C17]
+    vec![&e1::C01, &e1::C03, &e1::C12, &e1::C17, &e3::C11]
 }
 
 pub fn get(name: &str) -> Option<&'static dyn Scenario> {
